@@ -8,7 +8,7 @@ without a predicate is a pure D-TABLE entry.  `scope` restricts an entry to prop
 entry points only produce trusted (assembler-made) data.
 """
 import os, re
-from lib import panics
+from lib import panics, nf
 from lib.mir import strip_generics, same_value
 
 # --------------------------------------------------------------------------- helpers
@@ -617,21 +617,24 @@ def lexer_bounds_string_literals(F, site=None):
     b = F.bodies.get("parse::lex::lex_str_literal")
     if b is None:
         return False
-    found = False
-    for bi, t in b.terms("switch"):
-        d = panics._unwrap_var(b.expr_of_operand(t["discr"]))
-        if d[0] == "bin" and d[1] == "Lt":
-            l, r = panics._unwrap_var(d[2]), d[3]
-            rv = panics.interval(r)
-            if l[0] == "call" and (l[1] or "").endswith("String::len") and rv and rv[1] <= 65535:
-                # the Ok(..) aggregate must be on the true edge only
-                true_t = t["otherwise"]
-                for bj, sj, s in b.stmts():
-                    if s["k"] == "assign" and s["rv"]["k"] == "agg" and s["rv"].get("variant") == "Ok":
-                        if not b.dominates(true_t, bj) or any(tb == true_t for v, tb in t["values"]):
-                            return False
-                        found = True
-    return found
+    # every path to every Ok(..) aggregate passes the true edge of `len(<the returned string>) < K`, K <= 65535
+    # (path conditions in positive form: `>=`/early-return spellings of the same test give the same atom)
+    oks = [bj for bj, sj, s in b.stmts() if s["k"] == "assign" and s["rv"]["k"] == "agg" and s["rv"].get("variant") == "Ok"]
+    if not oks:
+        return False
+    for o in oks:
+        pcs = nf.path_conditions(b, o, lambda x: x.startswith("Lt(String::len("))
+        if not pcs:
+            return False
+        for pc in pcs:
+            good = False
+            for d, lab in pc:
+                m = re.fullmatch(r"Lt\(String::len\(.*\), \(?(\d+)(?: as usize\))?\)", d)
+                if m and int(m.group(1)) <= 65535 and lab == "1":
+                    good = True
+            if not good:
+                return False
+    return True
 
 
 def label_built_only_by_new(F, site=None):
